@@ -1,0 +1,458 @@
+//! Verification hooks (cargo feature `circ_verif`, off by default).
+//!
+//! Nothing in here changes what the library does: `point` gives an external scheduler a chance
+//! to switch threads just before a shared-memory access, `event` reports what happened, and the
+//! remaining items expose crate-private pieces (the tagged pointer, the count word, the epoch
+//! collector, its queue and its registry list) so that a model checker can drive them directly.
+//! With the feature off this module is not compiled and the `vpoint!`/`vevent!` macros expand
+//! to nothing.
+
+use core::sync::atomic::{AtomicPtr, Ordering};
+use std::ptr::null_mut;
+
+use crate::ebr_impl::verif_exports as ebr_int;
+use crate::ebr_impl::{Guard, Tagged};
+use crate::{AtomicRc, AtomicWeak, Rc, RcObject, Snapshot, Weak, WeakSnapshot};
+
+/// Classes of yield points.
+#[repr(u8)]
+#[derive(Clone, Copy, Debug, PartialEq, Eq)]
+pub enum Class {
+    /// An access of an object's count word.
+    State = 0,
+    /// An access of an `AtomicRc`/`AtomicWeak` link.
+    Link = 1,
+    /// The reference-counting layer reads the global epoch.
+    EpochRead = 2,
+    /// An access of the global epoch or of a participant's epoch.
+    Epoch = 3,
+    /// An access of a pointer of the collector's queue or registry list.
+    Raw = 4,
+}
+
+/// What the library reports. All payloads are plain integers (addresses and raw words).
+#[derive(Clone, Copy, Debug, PartialEq, Eq)]
+pub enum Event {
+    Alloc { obj: usize, strong: u32 },
+    Dealloc { obj: usize },
+    /// `try_destruct` won the CAS that sets the destructed flag.
+    DestructDecided { obj: usize },
+    /// `pop_edges` is about to run.
+    DestructBegin { obj: usize, depth: usize },
+    /// The payload's destructor returned.
+    DestructEnd { obj: usize },
+    /// A `try_destruct` (kind 0) or `try_dealloc` (kind 1) task was handed to the collector.
+    RcDefer { kind: u8, obj: usize },
+    /// Such a task started to run.
+    RcRun { kind: u8, obj: usize },
+    /// The content of a link changed from `old` to `new` (raw words).
+    LinkWrite { cell: usize, old: usize, new: usize, weak: bool },
+    /// A link is dropped while containing `word`.
+    CellDrop { cell: usize, word: usize, weak: bool },
+    Pinned { local: usize, epoch: usize },
+    Unpinned { local: usize },
+    Repinned { local: usize, epoch: usize },
+    /// A store into an epoch variable (`addr`); values are raw (`epoch << 1 | pinned`).
+    EpochStore { addr: usize, old: usize, new: usize },
+    BagSealed { epoch: usize, len: usize },
+    BagExpired { epoch: usize },
+    Registered { local: usize },
+    Finalized { local: usize },
+    /// The registry list unlinked an element of a [`ebr::VList`].
+    ListFinalize { id: usize },
+}
+
+/// The callbacks a harness installs.
+pub struct Hooks {
+    /// Called just before a shared access; may block the calling thread.
+    pub point: fn(Class, usize),
+    /// Called after something happened; must not block.
+    pub event: fn(&Event),
+    /// `true`: the block at this address is kept (not freed) by `RcInner::dealloc`.
+    pub quarantine: fn(usize) -> bool,
+}
+
+static HOOKS: AtomicPtr<Hooks> = AtomicPtr::new(null_mut());
+
+/// Installs the callbacks.
+pub fn install(h: &'static Hooks) {
+    HOOKS.store(h as *const Hooks as *mut Hooks, Ordering::SeqCst);
+}
+
+/// Removes the callbacks.
+pub fn uninstall() {
+    HOOKS.store(null_mut(), Ordering::SeqCst);
+}
+
+#[inline]
+fn hooks() -> Option<&'static Hooks> {
+    unsafe { HOOKS.load(Ordering::Relaxed).as_ref() }
+}
+
+#[inline]
+pub(crate) fn point(class: Class, addr: usize) {
+    if let Some(h) = hooks() {
+        (h.point)(class, addr)
+    }
+}
+
+#[inline]
+pub(crate) fn event(ev: Event) {
+    if let Some(h) = hooks() {
+        (h.event)(&ev)
+    }
+}
+
+#[inline]
+pub(crate) fn quarantine(addr: usize) -> bool {
+    match hooks() {
+        Some(h) => (h.quarantine)(addr),
+        None => false,
+    }
+}
+
+// ------------------------------------------------------------------------------------------
+// The default collector.
+
+static DEFAULT_OVERRIDE: AtomicPtr<ebr::Collector> = AtomicPtr::new(null_mut());
+
+/// Makes `c` the collector behind `cs()` for threads that have not used the library yet, and
+/// returns the previous override. `None` restores the process-wide collector. The caller must
+/// make sure that no thread is still registered in a collector it drops.
+pub fn set_default_collector(c: Option<ebr::Collector>) -> Option<ebr::Collector> {
+    let new = match c {
+        Some(c) => Box::into_raw(Box::new(c)),
+        None => null_mut(),
+    };
+    let old = DEFAULT_OVERRIDE.swap(new, Ordering::SeqCst);
+    if old.is_null() {
+        None
+    } else {
+        Some(*unsafe { Box::from_raw(old) })
+    }
+}
+
+#[inline]
+pub(crate) fn default_override() -> Option<&'static ebr::Collector> {
+    unsafe { DEFAULT_OVERRIDE.load(Ordering::SeqCst).as_ref() }
+}
+
+/// The global epoch of the default collector.
+pub fn global_epoch() -> usize {
+    crate::ebr_impl::default_collector().global_epoch().value()
+}
+
+/// Address of the global epoch variable of the default collector.
+pub fn global_epoch_addr() -> usize {
+    ebr::global_epoch_addr(crate::ebr_impl::default_collector())
+}
+
+/// Pins the current thread in the default collector and calls the real `try_advance` once.
+/// Returns the global epoch afterwards.
+pub fn try_advance() -> usize {
+    let guard = crate::cs();
+    ebr::try_advance(crate::ebr_impl::default_collector(), &guard)
+}
+
+/// State of a participant.
+#[derive(Clone, Copy, Debug, PartialEq, Eq)]
+pub struct LocalState {
+    pub guard_count: usize,
+    pub handle_count: usize,
+    /// The participant's published epoch (meaningful when `pinned`).
+    pub epoch: usize,
+    pub pinned: bool,
+    pub addr: usize,
+}
+
+/// State of the current thread's participant in the default collector.
+pub fn local_state() -> LocalState {
+    crate::ebr_impl::verif_with_handle(|h| ebr::local_state(h))
+}
+
+/// Sets the capacity of bags created from now on.
+pub fn set_bag_capacity(n: usize) {
+    ebr_int::set_bag_capacity(n)
+}
+
+/// Sets the number of decrements between two forced flushes.
+pub fn set_manual_interval(n: usize) {
+    ebr_int::set_manual_interval(n)
+}
+
+// ------------------------------------------------------------------------------------------
+// Raw words of the public pointer types.
+
+/// Raw word (address | tag | timestamp) of an `Rc`.
+pub fn rc_word<T: RcObject>(p: &Rc<T>) -> usize {
+    p.verif_word()
+}
+
+/// Raw word of a `Snapshot`.
+pub fn snapshot_word<T>(p: &Snapshot<'_, T>) -> usize {
+    p.ptr.verif_word()
+}
+
+/// Raw word of a `Weak`.
+pub fn weak_word<T>(p: &Weak<T>) -> usize {
+    p.verif_word()
+}
+
+/// Raw word of a `WeakSnapshot`.
+pub fn weak_snapshot_word<T>(p: &WeakSnapshot<'_, T>) -> usize {
+    p.ptr.verif_word()
+}
+
+/// Raw word currently stored in an `AtomicRc` (relaxed load, no yield point).
+pub fn link_word<T: RcObject>(c: &AtomicRc<T>) -> usize {
+    c.verif_word()
+}
+
+/// Raw word currently stored in an `AtomicWeak` (relaxed load, no yield point).
+pub fn wlink_word<T>(c: &AtomicWeak<T>) -> usize {
+    c.link.load(Ordering::Relaxed).verif_word()
+}
+
+/// Address part of a raw word of a pointer to a counted `T`.
+pub fn word_addr<T>(word: usize) -> usize {
+    Tagged::<crate::utils::RcInner<T>>::verif_from_word(word).as_raw() as usize
+}
+
+/// User tag of a raw word of a pointer to a counted `T`.
+pub fn word_tag<T>(word: usize) -> usize {
+    Tagged::<crate::utils::RcInner<T>>::verif_from_word(word).tag()
+}
+
+/// Timestamp of a raw word.
+pub fn word_stamp(word: usize) -> usize {
+    Tagged::<u64>::verif_from_word(word).high_tag()
+}
+
+/// The count word of the object an `Rc` points to.
+pub fn count_word<T: RcObject>(p: &Rc<T>) -> Option<u64> {
+    let addr = word_addr::<T>(rc_word(p));
+    if addr == 0 {
+        None
+    } else {
+        Some(unsafe { count_word_at::<T>(addr) })
+    }
+}
+
+/// The count word of the block at `obj`.
+///
+/// # Safety
+///
+/// `obj` must be the address of a block of a counted `T` that is allocated or quarantined.
+pub unsafe fn count_word_at<T>(obj: usize) -> u64 {
+    crate::utils::verif_count_word::<T>(obj)
+}
+
+/// Frees a block that was kept back by the `quarantine` hook.
+///
+/// # Safety
+///
+/// `obj` must have been reported by `Event::Dealloc`, kept by the hook, and not freed since.
+pub unsafe fn free_quarantined<T>(obj: usize) {
+    crate::utils::verif_free::<T>(obj)
+}
+
+/// The `Tagged` pointer type, for exhaustive enumeration over chosen pointee types.
+pub mod tagged {
+    use super::Tagged;
+    use core::mem::align_of;
+
+    pub fn with_tag<T>(word: usize, tag: usize) -> usize {
+        Tagged::<T>::verif_from_word(word).with_tag(tag).verif_word()
+    }
+    pub fn tag<T>(word: usize) -> usize {
+        Tagged::<T>::verif_from_word(word).tag()
+    }
+    pub fn with_high_tag<T>(word: usize, tag: usize) -> usize {
+        Tagged::<T>::verif_from_word(word)
+            .with_high_tag(tag)
+            .verif_word()
+    }
+    pub fn high_tag<T>(word: usize) -> usize {
+        Tagged::<T>::verif_from_word(word).high_tag()
+    }
+    pub fn as_raw<T>(word: usize) -> usize {
+        Tagged::<T>::verif_from_word(word).as_raw() as usize
+    }
+    pub fn is_null<T>(word: usize) -> bool {
+        Tagged::<T>::verif_from_word(word).is_null()
+    }
+    pub fn ptr_eq<T>(a: usize, b: usize) -> bool {
+        Tagged::<T>::verif_from_word(a).ptr_eq(Tagged::<T>::verif_from_word(b))
+    }
+    pub fn fmt_pointer<T>(word: usize) -> String {
+        format!("{:p}", Tagged::<T>::verif_from_word(word))
+    }
+    pub fn fmt_debug<T>(word: usize) -> String {
+        format!("{:?}", Tagged::<T>::verif_from_word(word))
+    }
+    /// Alignment of the pointee, which bounds the user tag.
+    pub fn pointee_align<T>() -> usize {
+        align_of::<T>()
+    }
+    /// Alignment of the block a counted `T` lives in: the tag of `Rc<T>` etc. is truncated to it.
+    pub fn counted_align<T>() -> usize {
+        align_of::<crate::utils::RcInner<T>>()
+    }
+}
+
+/// The count word and the modular epoch arithmetic.
+pub mod state {
+    pub use crate::utils::verif_state::*;
+}
+
+/// The epoch collector and its two lock-free structures.
+pub mod ebr {
+    use super::ebr_int;
+    use super::{Event, Guard, LocalState};
+    use crate::ebr_impl::RawShared;
+
+    pub use super::ebr_int::{Collector, LocalHandle};
+
+    /// Defers `f` through `guard`'s participant.
+    ///
+    /// # Safety
+    ///
+    /// As for crossbeam's `Guard::defer_unchecked`.
+    pub unsafe fn defer<F: FnOnce()>(guard: &Guard, f: F) {
+        guard.defer_unchecked(f)
+    }
+
+    /// Sets the global epoch of a collector nobody has pinned yet.
+    pub fn set_initial_epoch(c: &Collector, value: usize) {
+        ebr_int::set_epoch(&c.global, value)
+    }
+
+    pub fn global_epoch(c: &Collector) -> usize {
+        c.global_epoch().value()
+    }
+
+    pub fn global_epoch_addr(c: &Collector) -> usize {
+        ebr_int::epoch_addr(&c.global)
+    }
+
+    /// One real `try_advance`; returns the global epoch afterwards.
+    pub fn try_advance(c: &Collector, guard: &Guard) -> usize {
+        c.global.try_advance(guard).value()
+    }
+
+    pub fn local_state(h: &LocalHandle) -> LocalState {
+        let (guard_count, handle_count, data) = unsafe { (*h.local).verif_state() };
+        LocalState {
+            guard_count,
+            handle_count,
+            epoch: data >> 1,
+            pinned: data & 1 == 1,
+            addr: h.local as usize,
+        }
+    }
+
+    /// State of the participant a guard belongs to.
+    pub fn guard_local_state(g: &Guard) -> Option<LocalState> {
+        unsafe { g.local.as_ref() }.map(|l| {
+            let (guard_count, handle_count, data) = l.verif_state();
+            LocalState {
+                guard_count,
+                handle_count,
+                epoch: data >> 1,
+                pinned: data & 1 == 1,
+                addr: g.local as usize,
+            }
+        })
+    }
+
+    /// Number of sealed bags a single-threaded caller finds in the global queue.
+    pub fn is_queue_empty(c: &Collector, guard: &Guard) -> bool {
+        ebr_int::queue_is_empty(&c.global, guard)
+    }
+
+    /// The collector's garbage queue type, instantiated by the harness.
+    pub struct VQueue<T>(ebr_int::Queue<T>);
+
+    impl<T: Sync> VQueue<T> {
+        #[allow(clippy::new_without_default)]
+        pub fn new() -> Self {
+            Self(ebr_int::Queue::new())
+        }
+        pub fn push(&self, t: T, guard: &Guard) {
+            self.0.push(t, guard)
+        }
+        pub fn try_pop(&self, guard: &Guard) -> Option<T> {
+            self.0.try_pop(guard)
+        }
+        pub fn try_pop_if<F: Fn(&T) -> bool>(&self, f: F, guard: &Guard) -> Option<T> {
+            self.0.try_pop_if(f, guard)
+        }
+    }
+
+    /// Element of a [`VList`].
+    pub struct VElem {
+        entry: ebr_int::Entry,
+        id: usize,
+    }
+
+    impl ebr_int::IsElement<VElem> for VElem {
+        fn entry_of(e: &VElem) -> &ebr_int::Entry {
+            &e.entry
+        }
+        unsafe fn element_of(entry: &ebr_int::Entry) -> &VElem {
+            let off = memoffset::offset_of!(VElem, entry);
+            &*((entry as *const ebr_int::Entry as usize - off) as *const VElem)
+        }
+        unsafe fn finalize(entry: &ebr_int::Entry, guard: &Guard) {
+            let elem = Self::element_of(entry);
+            super::event(Event::ListFinalize { id: elem.id });
+            guard.defer_destroy(RawShared::from(elem as *const VElem));
+        }
+    }
+
+    /// Handle of an inserted element.
+    #[derive(Clone, Copy)]
+    pub struct VElemRef(*const VElem);
+    unsafe impl Send for VElemRef {}
+    unsafe impl Sync for VElemRef {}
+
+    /// The collector's registry list type, instantiated with a harness element.
+    pub struct VList(ebr_int::List<VElem>);
+    unsafe impl Send for VList {}
+    unsafe impl Sync for VList {}
+
+    impl VList {
+        #[allow(clippy::new_without_default)]
+        pub fn new() -> Self {
+            Self(ebr_int::List::new())
+        }
+
+        pub fn insert(&self, id: usize, guard: &Guard) -> VElemRef {
+            let elem = RawShared::from_owned(VElem {
+                entry: ebr_int::Entry::default(),
+                id,
+            });
+            unsafe { self.0.insert(elem, guard) };
+            VElemRef(elem.as_raw())
+        }
+
+        /// # Safety
+        ///
+        /// `e` was returned by `insert` of this list and has not been deleted yet.
+        pub unsafe fn delete(&self, e: VElemRef, guard: &Guard) {
+            (*e.0).entry.delete(guard)
+        }
+
+        /// Runs one traversal to its end or to the first stall; returns the ids visited.
+        pub fn traverse(&self, guard: &Guard) -> (Vec<usize>, bool) {
+            let mut seen = Vec::new();
+            for e in self.0.iter(guard) {
+                match e {
+                    Ok(elem) => seen.push(elem.id),
+                    Err(ebr_int::IterError::Stalled) => return (seen, true),
+                }
+            }
+            (seen, false)
+        }
+    }
+}
